@@ -2,6 +2,7 @@ package main
 
 import (
 	"bytes"
+	"os"
 	"fmt"
 	"reflect"
 
@@ -21,6 +22,9 @@ import (
 type Prog struct {
 	Steps     []Step `json:"steps"`
 	IllFormed bool   `json:"ill_formed,omitempty"`
+	// Literal: most instructions are built as struct literals (exported fields
+	// set, cached Typ left unset) instead of through the New* constructors.
+	Literal bool `json:"literal,omitempty"`
 }
 
 // Step is one construction or editing step.
@@ -62,6 +66,7 @@ type genParams struct {
 	// sources for C13/C19 stay well-formed.
 	IllFormed bool
 	Steps     int
+	Literal   bool // build instructions as struct literals with Typ unset
 	Metadata  bool // allow metadata definitions and attachments
 	BlockAddr bool // allow blockaddress constants of blocks in global initialisers
 }
@@ -75,7 +80,17 @@ var namePool = []string{"", "", "", "x", "y", "tmp", "val", "res", "a b", "p.q",
 
 // genProgram draws a program.
 func genProgram(r *rng, p genParams) *Prog {
-	pr := &Prog{IllFormed: p.IllFormed}
+	pr := &Prog{IllFormed: p.IllFormed && !p.Literal, Literal: p.Literal}
+	if p.Literal && os.Getenv("SIM_LITERAL_ILLFORMED") != "" {
+		// development aid: how known finding K2 was found
+		pr.IllFormed = p.IllFormed
+	} else if p.Literal {
+		// The lazily cached Typ of a literal-built instruction is computed at the
+		// first Type() query; edits that change the type an instruction derives from
+		// its operands are left out of literal programs (known finding K2, pinned by
+		// a tape of its own).
+		p.IllFormed = false
+	}
 	add := func(s Step) { pr.Steps = append(pr.Steps, s) }
 	sel := func() int { return r.intn(1 << 12) }
 	// phi (nested operand structure) and call (void/non-void) are drawn more often.
@@ -102,15 +117,23 @@ func genProgram(r *rng, p genParams) *Prog {
 		add(Step{Op: "func", K: r.intn(5), A: r.intn(4), B: sel(), C: sel(), D: sel(), Name: name()})
 		add(Step{Op: "block", A: i, Name: name()})
 	}
+	if r.chance(1, 3) {
+		for i, n := 0, 2+r.intn(3); i < n; i++ {
+			add(Step{Op: "attrgroup", K: r.intn(8), A: sel(), B: sel()})
+		}
+	}
 	for len(pr.Steps) < p.Steps {
 		switch x := r.intn(100); {
 		case x < 1:
 			add(Step{Op: "setfield", K: r.intn(6), A: sel(), B: sel()})
 		case x < 3:
-			if r.chance(1, 2) {
+			switch r.intn(3) {
+			case 0:
 				add(Step{Op: "alias", K: r.intn(2), A: sel(), Name: name()})
-			} else {
+			case 1:
 				add(Step{Op: "typedef", K: r.intn(15), A: sel(), Name: name()})
+			default:
+				add(Step{Op: "attrgroup", K: r.intn(8), A: sel(), B: sel()})
 			}
 		case x < 6:
 			add(Step{Op: "global", K: []int{0, 1, 2, 3, 4, 6}[r.intn(6)], A: sel(), Name: name()})
@@ -180,6 +203,7 @@ type machine struct {
 	// printedOnce is set by print observers; used for probes only.
 	printedOnce bool
 	illFormed   bool
+	literal     bool
 }
 
 type mfunc struct {
@@ -387,44 +411,94 @@ func (mc *machine) newInst(f *mfunc, k, c, d int) ir.Instruction {
 			mc.born[v] = mc.stepNo
 		}
 	}()
+	// In literal programs most instructions of the kinds below are built as
+	// struct literals: no constructor runs, so neither the cached Typ of the new
+	// instruction nor that of its operands is filled in by the builder.
+	lit := mc.literal
+	if lit {
+		// only kinds that have a literal form below: no constructor ever runs, so
+		// no cached Typ is filled in by the builder
+		k = []int{0, 1, 2, 3, 4, 5, 6, 7, 8, 9, 11, 12, 13, 15, 16, 17}[k%16]
+		mc.probes["instruction built as a struct literal (Typ unset)"]++
+	}
 	switch k % nInstKinds {
 	case 0:
 		x, y := mc.pick(f, tI32, c), mc.pick(f, tI32, d)
-		in = ir.NewAdd(x, y)
+		if lit {
+			in = &ir.InstAdd{X: x, Y: y}
+		} else {
+			in = ir.NewAdd(x, y)
+		}
 		mc.use(in, x, y)
 	case 1:
 		x, y := mc.pick(f, tI32, c), mc.pick(f, tI32, d)
-		in = ir.NewSub(x, y)
+		if lit {
+			in = &ir.InstSub{X: x, Y: y}
+		} else {
+			in = ir.NewSub(x, y)
+		}
 		mc.use(in, x, y)
 	case 2:
 		x, y := mc.pick(f, tI64, c), mc.pick(f, tI64, d)
-		in = ir.NewMul(x, y)
+		if lit {
+			in = &ir.InstMul{X: x, Y: y}
+		} else {
+			in = ir.NewMul(x, y)
+		}
 		mc.use(in, x, y)
 	case 3:
 		x, y := mc.pick(f, tI32, c), mc.pick(f, tI32, d)
-		in = ir.NewXor(x, y)
+		if lit {
+			in = &ir.InstXor{X: x, Y: y}
+		} else {
+			in = ir.NewXor(x, y)
+		}
 		mc.use(in, x, y)
 	case 4:
 		x, y := mc.pick(f, tI64, c), mc.pick(f, tI64, d)
-		in = ir.NewShl(x, y)
+		if lit {
+			in = &ir.InstShl{X: x, Y: y}
+		} else {
+			in = ir.NewShl(x, y)
+		}
 		mc.use(in, x, y)
 	case 5:
 		x, y := mc.pick(f, tI32, c), mc.pick(f, tI32, d)
-		in = ir.NewICmp(enum.IPred(c%10), x, y)
+		if lit {
+			in = &ir.InstICmp{Pred: enum.IPred(c % 10), X: x, Y: y}
+		} else {
+			in = ir.NewICmp(enum.IPred(c%10), x, y)
+		}
 		mc.use(in, x, y)
 	case 6:
 		cond, x, y := mc.pick(f, tI1, c), mc.pick(f, tI32, d), mc.pick(f, tI32, c+d)
-		in = ir.NewSelect(cond, x, y)
+		if lit {
+			in = &ir.InstSelect{Cond: cond, ValueTrue: x, ValueFalse: y}
+		} else {
+			in = ir.NewSelect(cond, x, y)
+		}
 		mc.use(in, cond, x, y)
 	case 7:
-		in = ir.NewAlloca(tI32)
+		if lit {
+			in = &ir.InstAlloca{ElemType: tI32}
+		} else {
+			in = ir.NewAlloca(tI32)
+		}
 	case 8:
 		p := mc.pick(f, tP32, c)
-		in = ir.NewLoad(tI32, p)
+		if lit {
+			in = &ir.InstLoad{ElemType: tI32, Src: p}
+		} else {
+			in = ir.NewLoad(tI32, p)
+		}
 		mc.use(in, p)
 	case 9:
 		x, p := mc.pick(f, tI32, c), mc.pick(f, tP32, d)
-		in = ir.NewStore(x, p)
+		if lit {
+			in = &ir.InstStore{Src: x, Dst: p}
+		} else {
+			in = ir.NewStore(x, p)
+		}
 		mc.use(in, x, p)
 	case 10:
 		in = ir.NewFence(enum.AtomicOrderingSequentiallyConsistent)
@@ -434,16 +508,28 @@ func (mc *machine) newInst(f *mfunc, k, c, d int) ir.Instruction {
 		for i, p := range callee.f.Params {
 			args = append(args, mc.pick(f, p.Typ, d+i))
 		}
-		in = ir.NewCall(callee.f, args...)
+		if lit {
+			in = &ir.InstCall{Callee: callee.f, Args: args}
+		} else {
+			in = ir.NewCall(callee.f, args...)
+		}
 		calleeRet = callee.f.Sig.RetType
 		mc.use(in, append([]value.Value{callee.f}, args...)...)
 	case 12:
 		x := mc.pick(f, tI32, c)
-		in = ir.NewZExt(x, tI64)
+		if lit {
+			in = &ir.InstZExt{From: x, To: tI64}
+		} else {
+			in = ir.NewZExt(x, tI64)
+		}
 		mc.use(in, x)
 	case 13:
 		x := mc.pick(f, tI64, c)
-		in = ir.NewTrunc(x, tI32)
+		if lit {
+			in = &ir.InstTrunc{From: x, To: tI32}
+		} else {
+			in = ir.NewTrunc(x, tI32)
+		}
 		mc.use(in, x)
 	case 14:
 		p, i := mc.pick(f, tP32, c), mc.pick(f, tI64, d)
@@ -451,15 +537,27 @@ func (mc *machine) newInst(f *mfunc, k, c, d int) ir.Instruction {
 		mc.use(in, p, i)
 	case 15:
 		x, y := mc.pick(f, tF64, c), mc.pick(f, tF64, d)
-		in = ir.NewFAdd(x, y)
+		if lit {
+			in = &ir.InstFAdd{X: x, Y: y}
+		} else {
+			in = ir.NewFAdd(x, y)
+		}
 		mc.use(in, x, y)
 	case 16:
 		x := mc.pick(f, tI32, c)
-		in = ir.NewSIToFP(x, tF64)
+		if lit {
+			in = &ir.InstSIToFP{From: x, To: tF64}
+		} else {
+			in = ir.NewSIToFP(x, tF64)
+		}
 		mc.use(in, x)
 	case 17:
 		x, y := mc.pick(f, tF64, c), mc.pick(f, tF64, d)
-		in = ir.NewFCmp(enum.FPred(c%14), x, y)
+		if lit {
+			in = &ir.InstFCmp{Pred: enum.FPred(c % 14), X: x, Y: y}
+		} else {
+			in = ir.NewFCmp(enum.FPred(c%14), x, y)
+		}
 		mc.use(in, x, y)
 	case 18:
 		n := 1 + c%2
@@ -732,6 +830,27 @@ func (mc *machine) exec1(s Step) bool {
 			mc.probes["unnamed global appended after a print"]++
 		}
 		mc.globals = append(mc.globals, g)
+		return true
+	case "attrgroup":
+		// An attribute group with an explicit ID (IDs are handed out in an order
+		// that is not ascending, as a client numbering groups by hand may do) used
+		// by one function.
+		ids := []int64{4, 1, 7, 0, 9, 2, 12, 5, 3, 30, 8, 6}
+		n := len(mc.m.AttrGroupDefs)
+		if n >= len(ids) {
+			return false
+		}
+		def := &ir.AttrGroupDef{ID: ids[n]}
+		for i, a := range []ir.FuncAttribute{enum.FuncAttrNoUnwind, enum.FuncAttrReadNone, enum.FuncAttrNoInline, ir.AttrString("probe-stack"), ir.AttrPair{Key: "frame-pointer", Value: "all"}} {
+			if (s.K+1)>>uint(i%3)&1 == 1 || i == s.K%5 {
+				def.FuncAttrs = append(def.FuncAttrs, a)
+			}
+		}
+		mc.m.AttrGroupDefs = append(mc.m.AttrGroupDefs, def)
+		if f := mc.fn(s.A); f != nil {
+			f.f.FuncAttrs = append(f.f.FuncAttrs, def)
+		}
+		mc.probes["attribute group with a hand-chosen ID appended"]++
 		return true
 	case "alias":
 		name := mc.uniq(mc.gnames, s.Name)
@@ -1511,6 +1630,7 @@ func (mc *machine) observe(o Obs) (applied bool, bad string) {
 func runProgramAlone(p *Prog) (m *ir.Module, mc *machine, err error) {
 	mc = newMachine()
 	mc.illFormed = p.IllFormed
+	mc.literal = p.Literal
 	if pan, msg := protect(func() {
 		for _, s := range p.Steps {
 			mc.exec(s)
